@@ -504,3 +504,51 @@ def r6d(ctx: Ctx) -> list[Ob]:
     else:
         out.append(viol("R6d", "cirkit.pipeline.PipelineContext.compile", "delegates", "does not delegate to the compiler's memoised compile", pc.loc))
     return out
+
+
+# ------------------------------------------------------------------------------------------ R6g
+def r6g(ctx: Ctx, modules: tuple[str, ...] = ("cirkit",)) -> list[Ob]:
+    """R6g -- a generator-based context manager restores in ``finally``.
+
+    ``contextlib.contextmanager`` throws an exception that escapes the ``with`` block *into* the
+    generator at its ``yield``: statements after the ``yield`` run only on a normal exit.  Whatever
+    such a generator undoes (``<ContextVar>.reset(token)``, a ``__exit__`` call, a restore of saved
+    state) has to sit in the ``finally`` of a ``try`` that contains the ``yield`` -- or inside a
+    ``with`` that the ``yield`` is nested in.  C18 promises the restoration "also when an exception
+    escapes the block"."""
+    out: list[Ob] = []
+    n_gen = 0
+    for f in ctx.repo.iter_functions():
+        if not f.module.name.startswith(modules):
+            continue
+        if not any(d.split(".")[-1] in ("contextmanager", "asynccontextmanager") for d in f.decorators):
+            continue
+        n_gen += 1
+        par: dict[int, ast.AST] = {}
+        for n in ast.walk(f.node):
+            for ch in ast.iter_child_nodes(n):
+                par[id(ch)] = n
+        yields = [n for n in ast.walk(f.node) if isinstance(n, (ast.Yield, ast.YieldFrom))]
+        undo = [n for n in ast.walk(f.node) if isinstance(n, ast.Call) and isinstance(n.func, ast.Attribute) and n.func.attr in ("reset", "__exit__", "restore", "close", "release")]
+        bad = []
+        for u in undo:
+            # after some yield (textually) and not in a finally of a try containing that yield
+            for y in yields:
+                if u.lineno <= y.lineno:
+                    continue
+                cur: ast.AST | None = u
+                protected = False
+                while cur is not None and cur is not f.node:
+                    up = par.get(id(cur))
+                    if isinstance(up, ast.Try) and any(cur is s or any(cur is d for d in ast.walk(s)) for s in up.finalbody) and any(y is d for s in up.body for d in ast.walk(s)):
+                        protected = True
+                    cur = up
+                if not protected:
+                    bad.append((u, y))
+        if bad:
+            u, y = bad[0]
+            out.append(viol("R6g", f.qualname, "restore-in-finally", f"`{unparse(u)[:50]}` follows the yield (line {y.lineno}) outside a finally: when an exception escapes the with-block it is raised at the yield and the restoration is skipped -- the exited context stays active", f"{f.module.relpath}:{u.lineno}"))
+        else:
+            out.append(ok("R6g", f.qualname, "restore-in-finally", "everything undone after the yield sits in a finally (or nothing is undone)", f.loc))
+    out.append(ok("R6g", "cirkit", "generator-context-managers", f"{n_gen} generator-based context manager(s)", "", nontrivial=False))
+    return out
